@@ -1661,6 +1661,10 @@ func (h *ResponseHeader) GetAll(key string) []string {
 }
 
 func appendHeaderLine(dst, key, value []byte) []byte {
+	if len(key) == 0 {
+		// an empty field name is not a valid header line, skip it as well.
+		return dst
+	}
 	for _, k := range key {
 		// if header field contains invalid key, just skip it.
 		if bytesconv.ValidHeaderFieldNameTable[k] == 0 {
